@@ -740,6 +740,9 @@ func pubOptions(x *Exec, o Opts) wamp.Dict {
 	if o.Dme {
 		d["disclose_me"] = true
 	}
+	if o.Ppt != "" {
+		d["ppt_scheme"] = o.Ppt
+	}
 	return d
 }
 
@@ -918,6 +921,9 @@ func (x *Exec) step(sc *Scenario, in Input) {
 		if in.O.Prog {
 			opts["progress"] = true // a chunk of a progressive call invocation, more follow
 		}
+		if in.O.Ppt != "" {
+			opts["ppt_scheme"] = in.O.Ppt
+		}
 		a, kw := payload(in.Tag)
 		p.callReq[req] = string(uri)
 		p.lastCall = req
@@ -940,6 +946,9 @@ func (x *Exec) step(sc *Scenario, in Input) {
 		opts := wamp.Dict{}
 		if in.O.Prog {
 			opts["progress"] = true
+		}
+		if in.O.Ppt != "" {
+			opts["ppt_scheme"] = in.O.Ppt
 		}
 		a, kw := payload(in.Tag)
 		p.send(&wamp.Yield{Request: wamp.ID(in.ID), Options: opts, Arguments: a, ArgumentsKw: kw})
